@@ -4,6 +4,7 @@ import (
 	"context"
 	"time"
 
+	"reservoir/config"
 	"reservoir/utils/duration"
 )
 
@@ -146,15 +147,29 @@ func lockLeakInterleaved(mem *MemoryCache[vmeta], file *FileCache[vmeta]) {
 		c.Cache(vKeys[i], &symReader{data: []byte{byte(i), 1}, failAt: -1}, exp, vmeta{Ver: int64(i)})
 	}
 	k2 := vKeys[symChoice(nk)]
-	kind := symChoice(3)
+	kind := symChoice(5)
+	var cfg *config.Config
+	if mem != nil {
+		cfg = mem.janitor.cfg
+	} else {
+		cfg = file.janitor.cfg
+	}
 	vInterpose(func() {
 		switch kind {
 		case 0:
 			c.Cache(k2, &symReader{data: []byte{9}, failAt: -1}, now.Add(time.Hour), vmeta{Ver: 9})
 		case 1:
 			c.Delete(k2)
-		default:
+		case 2:
 			c.Get(k2)
+		case 3:
+			// another request stores a new resource (and so may fill the cache up again)
+			c.Cache(vKeys[nk], &symReader{data: []byte{8, 8}, failAt: -1}, now.Add(time.Hour), vmeta{Ver: 8})
+		default:
+			// the operator lowers the limit; the listener goroutines run at once
+			cfg.Cache.MaxCacheSize.Stage(bytesizeOf(2))
+			cfg.Cache.MaxCacheSize.CommitStaged()
+			vRunPending()
 		}
 	}, vParam("interpose", 1))
 	switch symChoice(4) {
@@ -193,8 +208,18 @@ func lockLeakInterleaved(mem *MemoryCache[vmeta], file *FileCache[vmeta]) {
 	vReach("still-live")
 }
 
-func HarnessLockLeakInterleavedMem()  { lockLeakInterleaved(newMem(symRange(1, 2), 1<<30), nil) }
-func HarnessLockLeakInterleavedFile() { lockLeakInterleaved(nil, newFile(symRange(1, 2), 1<<30)) }
+// the limit is either far away or so small that the stores of the harness find the cache full
+// (store-triggered eviction runs inside the operation under test and inside the interposed one)
+func leakLimit() int64 {
+	if symChoice(2) == 1 {
+		vReach("small-limit")
+		return 4
+	}
+	return 1 << 30
+}
+
+func HarnessLockLeakInterleavedMem()  { lockLeakInterleaved(newMem(symRange(1, 2), leakLimit()), nil) }
+func HarnessLockLeakInterleavedFile() { lockLeakInterleaved(nil, newFile(symRange(1, 2), leakLimit())) }
 
 // HarnessStopNeverBlocks: "stopping the cache never blocks".  The cache (either backend) is
 // started with a live or an already cancelled context; the janitor loop is run (it exits on a
